@@ -33,6 +33,47 @@ OTHER_DAYS = ['2024-03-04', '2024-03-06', '2024-02-29', '2023-03-05']
 NAMES = ['a', 'b', 'a.log', 'a/b', 'a-b', 'bin/ksh', 'usr.bin/make', '-n', '-e', '-nE', '-x', '-', 'a_b', '0', '1.2',
          'kernel', 'a.log.1', 'sys/kern', 'A', 'env', 'e']
 STEPS = [1, 2, 3, 4, 5, 6, 7, 9, 10, 11, 12, 99, 100, 101, 999, 1000, 1001]
+# ---- boundary classes (sizes / shapes a fixed buffer, a narrowed integer, a width assumption or an off-by-one trips over) ----
+# invocations of the day / directories of the root: digits of the suffix (9/10, 99/100, 999/1000), growth steps of a vector
+PER_DAY_B = [15, 16, 17, 31, 32, 33, 63, 64, 65, 99, 100, 101, 255, 256]
+PER_DAY_BIG = [999, 1000]
+# suffixes in use next to the integer limits: build_id compares them with `[ -gt ]` and prints $((c + 1)).  bash computes in
+# int64: 2^63 - 2 is the largest suffix whose successor it can print; from 2^63 - 1 on `$((c + 1))` wraps in bash (and ksh93
+# computes in floating point): outside what bash can stand in for (TRUSTED: suffixes below 2^63), not generated.
+BIG_SUFFIX = [2 ** 31 - 2, 2 ** 31 - 1, 2 ** 31, 2 ** 32 - 2, 2 ** 32 - 1, 2 ** 32, 2 ** 63 - 2]
+# existing logs of one step: width of the appended number
+LOGS_B = [1, 9, 10, 11, 99, 100, 101, 999, 1000]
+# step numbers around the width of %03d; the model takes the step as `nat` (unary once extracted): 100000 is the cap
+STEPS_B = [0, 65535, 65536, 99999, 100000]
+# length of a step name: NNN-<name>.log is 8 bytes longer, NAME_MAX is 255.  (240, 245, 247) -> log names of 248, 253, 255
+# bytes; the name with the suffix ".1" of the 245-byte step is exactly 255 bytes.  One byte more and tee cannot create the
+# log at all (ENAMETOOLONG): the attempt leaves nothing behind and there is no name to judge - capped there, with at most
+# as many attempts as still give names of NAME_MAX bytes.
+LONG_NAMES = [(240, 12), (245, 10), (247, 1)]
+NAMES_B = ['a b', 'a  b', 'a.b', 'a-', 'a.', 'a.log.', 'a/', '/a', 'a//b', 'a.lo', 'A.LOG']
+ROOT_LENS = [254, 255, 256, 1023, 1024, 1025, 4040]
+
+
+def expand(c):
+    """entries of a case: the explicit ones plus the compact form `bulk` = [[prefix hex, lo, hi, kind], ...] standing for
+    prefix + decimal(k), lo <= k <= hi (keeps corpus files with a thousand invocations or logs small)"""
+    ents = [list(e) for e in c.get('entries', [])]
+    seen = {e[0] for e in ents}
+    for ph, lo, hi, kind in c.get('bulk') or []:
+        for k in range(lo, hi + 1):
+            h = ph + str(k).encode().hex()
+            if h not in seen:
+                seen.add(h)
+                ents.append([h, kind])
+    return ents
+
+
+def padded(d, leaf, L, post=''):
+    """a directory path below d ending in `leaf` whose spelling, with `post` appended, has exactly L bytes"""
+    need = L - len(d) - 1 - len(leaf) - 1 - len(post)
+    if need < 1:
+        raise common.BuildFailure('C17 case: rootlen %r is shorter than the scratch directory allows' % L)
+    return os.path.join(d, '/'.join(iv_common.root_components(need)), leaf)
 
 
 def env_with_shims(ctx, date=DATE):
@@ -59,7 +100,37 @@ def inv_content(rng, rel):
     return ents
 
 
+def gen_bid_many(rng):
+    """a day with 15 ... 1000 invocations in compact form: all of them, the oldest cleaned away, the newest missing, a gap"""
+    m = rng.choice(PER_DAY_B if rng.random() < 0.93 else PER_DAY_BIG)
+    pre = (DATE + '.').encode().hex()
+    shape = rng.choice(['full', 'full', 'oldest', 'newest', 'gap'])
+    if shape == 'full':
+        bulk = [[pre, 1, m, 'D']]
+    elif shape == 'oldest':
+        bulk = [[pre, rng.choice([2, 9, 10, 11, m - 1, m]), m, 'D']]
+    elif shape == 'newest':
+        bulk = [[pre, 1, m - 1, 'D']]
+    else:
+        g = rng.choice([1, 2, 9, 10, m - 1])
+        bulk = [[pre, 1, g - 1, 'D'], [pre, g + 1, m, 'D']]
+    ents = []
+    if rng.random() < 0.5:
+        bulk.append([(rng.choice(OTHER_DAYS) + '.').encode().hex(), 1, rng.choice([1, 16, 17, 101]), 'D'])
+    if rng.random() < 0.3:
+        ents.append([('%s.%d' % (DATE, m + rng.choice([1, 2]))).encode().hex(), rng.choice(['F', 'L'])])
+    if rng.random() < 0.3:
+        ents += [[b'attic'.hex(), 'D'], [b'attic/2024/03/05.1'.hex(), 'D']]
+    c = {'kind': 'bid', 'stream': 'reach', 'rootname': 'r', 'spell': rng.choice(['abs', 'abs', 'slash']), 'entries': ents,
+         'bulk': bulk}
+    if rng.random() < 0.15:
+        c['rootlen'] = rng.choice(ROOT_LENS)
+    return c
+
+
 def gen_bid(rng):
+    if rng.random() < 0.05:
+        return gen_bid_many(rng)
     stream = 'reach' if rng.random() < 0.6 else 'wild'
     ents = []
     m = rng.choice([0, 1, 2, 3, 4, 5, 9, 10, 11, 12, 14])
@@ -94,7 +165,7 @@ def gen_bid(rng):
     if stream == 'wild':
         for _ in range(rng.randint(1, 4)):
             w = rng.choice(['file', 'link', 'nested', 'nl', 'bare', 'x', 'hidden', 'nestedfile', 'deep', 'zero', 'junk', 'dots',
-                            'big', 'empty'])
+                            'big', 'empty', 'limit', 'long'])
             k = rng.choice([1, 2, 3, len(ks) + 1, len(ks) + 2, m + 1])
             if w == 'file':
                 ents.append(['%s.%d' % (DATE, k), 'F'])
@@ -124,6 +195,12 @@ def gen_bid(rng):
                 ents.append(['%s.%d' % (DATE, rng.choice([99, 100, 12345, 10 ** 12, 2 ** 62])), rng.choice(['D', 'D', 'F', 'L'])])
             elif w == 'empty':
                 ents.append(['%s.' % DATE, 'D'])
+            elif w == 'limit':                      # a suffix next to 2^31 / 2^32 / 2^63
+                ents.append(['%s.%d' % (DATE, rng.choice(BIG_SUFFIX + [0])), rng.choice(['D', 'D', 'D', 'F'])])   # DATE.0: skipped (0*)
+            elif w == 'long':                       # names of NAME_MAX bytes that start like an invocation of the day
+                ents.append([rng.choice([DATE + '.' + 'x' * (iv_common.NAME_MAX - 11), DATE + 'x' * (iv_common.NAME_MAX - 10),
+                                         DATE + '.1.' + 'x' * (iv_common.NAME_MAX - 13),
+                                         DATE + '.' + '0' * (iv_common.NAME_MAX - 12) + '7']), rng.choice(['D', 'F'])])
         if rng.random() < 0.25:
             rootname = DATE + '-root'
         if rng.random() < 0.25:
@@ -134,7 +211,10 @@ def gen_bid(rng):
         if p not in seen:
             seen.add(p)
             out.append([p.encode().hex(), k])
-    return {'kind': 'bid', 'stream': stream, 'rootname': rootname, 'spell': spell, 'entries': out}
+    c = {'kind': 'bid', 'stream': stream, 'rootname': rootname, 'spell': spell, 'entries': out}
+    if rng.random() < 0.04:
+        c['rootlen'] = rng.choice(ROOT_LENS)
+    return c
 
 
 def gen_binit(rng):
@@ -148,7 +228,49 @@ def gen_binit(rng):
     return {'kind': 'binit', 'exists': exists, 'entries': names}
 
 
+def log_stem(step, name):
+    return '%03d-%s.log' % (step, name.replace('/', '-'))
+
+
+def gen_log_boundary(rng):
+    """attempts of a step that already has 1 ... 1000 logs (STEM.log, STEM.log.1 ... in compact form), of steps whose
+    name makes the log name 248 ... 255 bytes long, of names with blanks / separators at either end, of step numbers
+    around the width of %03d and at the cap of the model"""
+    ents = [['tmp', 'D'], ['robsd.log', 'F'], ['step.csv', 'F']]
+    bulk = []
+    w = rng.choice(['logs', 'logs', 'long', 'names', 'steps'])
+    natt = rng.choice([1, 2, 3])
+    if w == 'logs':
+        s_, n_ = rng.choice(STEPS), rng.choice(NAMES[:8] + NAMES_B[:3])
+        if re.fullmatch(r'-[neE]+', n_):
+            n_ = 'a'
+        k = rng.choice(LOGS_B if rng.random() < 0.9 else LOGS_B[:7])
+        stem = log_stem(s_, n_)
+        ents.append([stem, 'F'])
+        if k > 1:
+            bulk.append([(stem + '.').encode().hex(), 1, k - 1, 'F'])
+        if rng.random() < 0.4:
+            # a second step whose stem extends this one (find -name "STEM*" counts both)
+            ents.append([log_stem(s_, n_ + '.log'), 'F'])
+        atts = [[s_, n_]] * natt
+    elif w == 'long':
+        L, most = rng.choice(LONG_NAMES)
+        n_ = rng.choice(['n' * L, ('u/' * L)[:L - 1] + 'x', 'n' * (L - 4) + '.log'])
+        s_ = rng.choice(STEPS[:12])
+        atts = [[s_, n_]] * min(most, rng.choice([1, 2, 3, 10, 12]))
+    elif w == 'names':
+        pairs = [(rng.choice(STEPS[:6]), n_) for n_ in rng.sample(NAMES_B, 3)]
+        atts = [list(rng.choice(pairs)) for _ in range(rng.choice([2, 3, 5, 8]))]
+    else:
+        s_ = rng.choice(STEPS_B)
+        atts = [[s_, rng.choice(['a', 'kernel', 'a/b'])]] * natt + [[s_ + 1, 'a']]
+    return {'kind': 'log', 'stream': 'reach', 'entries': [[p_.encode().hex(), k] for p_, k in ents], 'bulk': bulk,
+            'attempts': [[s_, n_.encode().hex()] for s_, n_ in atts]}
+
+
 def gen_log(rng):
+    if rng.random() < 0.07:
+        return gen_log_boundary(rng)
     stream = 'reach' if rng.random() < 0.6 else 'wild'
     ents = [['tmp', 'D'], ['robsd.log', 'F'], ['step.csv', 'F']]
     for n, k in [('report', 'F'), ('comment', 'F'), ('tags', 'F'), ('stat.csv', 'F'), ('src.diff.1', 'F'),
@@ -197,11 +319,18 @@ def gen_newinv(rng):
 
 LOCKS = ['absent', 'own', 'own', 'other', 'other', 'empty', 'own_nonl', 'own_two_nl', 'nl_only', 'other_prefix', 'own_second_line',
          'other_nonl', 'same_name_elsewhere', 'own_respelled', 'own_parent']
+# more shapes: CRLF, a trailing slash, more than one 4096-byte block (owned by another / own path first), the own path cut
+# by one byte (a PREFIX of it: DATE.1 for DATE.10), the own path extended by a digit (DATE.100 for DATE.10)
+LOCKS_B = ['own_crlf', 'own_slash', 'other_long', 'own_long', 'own_cut', 'own_digit', 'own_long_line']
 
 
 def gen_lock(rng):
-    return {'kind': 'lock', 'lock': rng.choice(LOCKS), 'id': '%s.%d' % (DATE, rng.choice([1, 2, 10])),
-            'spell': rng.choice(['abs', 'abs', 'slash'])}
+    c = {'kind': 'lock', 'lock': rng.choice(LOCKS + (LOCKS_B if rng.random() < 0.4 else [])),
+         'id': '%s.%d' % (DATE, rng.choice([1, 2, 10, 10, 100, 1000, 2 ** 31])),
+         'spell': rng.choice(['abs', 'abs', 'slash'])}
+    if rng.random() < 0.1:
+        c['rootlen'] = rng.choice(ROOT_LENS)
+    return c
 
 
 SAFE_PUT = [('report', 'F'), ('comment', 'F'), ('tags', 'F'), ('src.diff.1', 'F'), ('rel', 'D'), ('tmp/x.tmp', 'F'),
@@ -314,10 +443,11 @@ def run_case(ctx, impl, env, work, idx, c):
     os.makedirs(d)
     try:
         if c['kind'] == 'bid':
-            root = os.path.join(d, c['rootname']).encode()
-            os.mkdir(root)
-            materialize(c['entries'], root)
-            start = root + (b'/' if c['spell'] == 'slash' else b'')
+            post = '/' if c['spell'] == 'slash' else ''
+            root = (padded(d, c['rootname'], c['rootlen'], post) if c.get('rootlen') else os.path.join(d, c['rootname'])).encode()
+            os.makedirs(root)
+            materialize(expand(c), root)
+            start = root + post.encode()
             tree = walk_tree(root)
             rc, out, err = bash(common.REPO, env, ['bid', start])
             return {'start': start, 'base': c['rootname'].encode(), 'tree': tree, 'rc': rc,
@@ -337,7 +467,7 @@ def run_case(ctx, impl, env, work, idx, c):
         if c['kind'] == 'log':
             b = os.path.join(d, 'b').encode()
             os.mkdir(b)
-            materialize(c['entries'], b)
+            materialize(expand(c), b)
             tree = walk_tree(b)
             snap = iv_common.snapshot(b)
             args = []
@@ -347,10 +477,11 @@ def run_case(ctx, impl, env, work, idx, c):
             return {'start': b, 'base': b'b', 'tree': tree, 'rc': rc, 'out': out, 'err': err,
                     'snap_before': snap, 'snap_after': iv_common.snapshot(b)}
         if c['kind'] == 'newinv':
-            root = os.path.join(d, c['rootname']).encode()
-            os.mkdir(root)
-            materialize(c['entries'], root)
-            start = root + (b'/' if c['spell'] == 'slash' else b'')
+            post = '/' if c['spell'] == 'slash' else ''
+            root = (padded(d, c['rootname'], c['rootlen'], post) if c.get('rootlen') else os.path.join(d, c['rootname'])).encode()
+            os.makedirs(root)
+            materialize(expand(c), root)
+            start = root + post.encode()
             before = iv_common.snapshot(root)
             rc, out, err = bash(common.REPO, env, ['newinv', start])
             lines = out.split(b'\n')
@@ -358,16 +489,20 @@ def run_case(ctx, impl, env, work, idx, c):
             return {'start': start, 'base': c['rootname'].encode(), 'before': before, 'after': iv_common.snapshot(root),
                     'id': b'\n'.join(lines[:-2]), 'rc': int(rcm.group(1)) if rcm else -1, 'err': err}
         if c['kind'] == 'lock':
-            root = os.path.join(d, 'root')
-            os.mkdir(root)
-            rs = root + ('/' if c['spell'] == 'slash' else '')
+            post = '/' if c['spell'] == 'slash' else ''
+            root = padded(d, 'root', c['rootlen'], post) if c.get('rootlen') else os.path.join(d, 'root')
+            os.makedirs(root)
+            rs = root + post
             bd = '%s/%s' % (rs, c['id'])
             other = '%s/%s' % (rs, '2024-03-04.7')
             content = {'absent': None, 'own': bd + '\n', 'other': other + '\n', 'empty': '', 'own_nonl': bd,
                        'own_two_nl': bd + '\n\n', 'nl_only': '\n', 'other_prefix': bd + 'x\n',
                        'own_second_line': bd + '\nsecond\n', 'other_nonl': other,
                        'same_name_elsewhere': '/elsewhere/%s\n' % c['id'], 'own_respelled': '%s//%s\n' % (rs.rstrip('/'), c['id']),
-                       'own_parent': rs + '\n'}[c['lock']]
+                       'own_parent': rs + '\n',
+                       'own_crlf': bd + '\r\n', 'own_slash': bd + '/\n', 'other_long': other + '\n' + 'x' * 5000 + '\n',
+                       'own_long': bd + '\n' + 'x' * 5000 + '\n', 'own_cut': bd[:-1] + '\n', 'own_digit': bd + '0\n',
+                       'own_long_line': bd + 'x' * 5000 + '\n'}[c['lock']]
             if content is not None:
                 open(os.path.join(root, '.running'), 'w').write(content)
             rc, out, err = bash(common.REPO, env, ['lockacq', rs, bd])
@@ -478,7 +613,7 @@ def logenv_outside(c):
     log; the one path that does is the C16 known finding clean-lock-spelled-differently, which strips the running
     directory) and nothing else creates a top-level name STEM.log.k.  A case doing one of the two is outside the
     property: this predicate, on the operations of the case alone, says which."""
-    have = {bytes.fromhex(p) for p, k in c['entries']}
+    have = {bytes.fromhex(p) for p, k in expand(c)}
     made = 0
     for op in c['ops']:
         if op[0] == 'A':
@@ -506,6 +641,63 @@ def has_gap(tree, date, name):
     k = int(m.group(1))
     dirs = {p for p, kind in tree if kind == 'D' and b'/' not in p}
     return any((date + '.%d' % j).encode() not in dirs for j in range(1, k))
+
+
+def classes_of(c, o):
+    """the boundary classes a case belongs to (printed into the input distribution as `class: ...`)"""
+    out = []
+    kind = c['kind']
+    if kind in ('bid', 'newinv'):
+        tree = o['tree'] if kind == 'bid' else [(p_, v[0].upper()) for p_, v in o['before'].items()]
+        top = [(p_, k) for p_, k in tree if b'/' not in p_]
+        today = []
+        for p_, k in top:
+            m = re.fullmatch(re.escape(DATE.encode()) + rb'\.([1-9]\d*)', p_)
+            if m and k == 'D':
+                today.append(int(m.group(1)))
+            if m and int(m.group(1)) in BIG_SUFFIX:
+                out.append('suffix in use=%s' % m.group(1).decode())
+            if len(p_) == iv_common.NAME_MAX:
+                out.append('root entry name of NAME_MAX bytes')
+            if p_ == (DATE + '.0').encode():
+                out.append('suffix in use=0')
+        if len(today) in PER_DAY_B + PER_DAY_BIG + [9, 10, 11]:
+            out.append('invocations of the day=%d' % len(today))
+        ndirs = sum(1 for p_, k in top if k in ('D', 'd') and not p_.startswith(b'.') and p_ != b'attic')
+        if ndirs in PER_DAY_B:
+            out.append('directories in the root=%d' % ndirs)
+        if today and max(today) > len(today):
+            out.append('gap below the largest suffix of the day')
+        if today and sorted(today) == [1] and (DATE.encode(), 'D') in [(p_, k.upper()) for p_, k in top]:
+            out.append('DATE and DATE.1 only')
+        if len(o['start']) in ROOT_LENS:
+            out.append('root-len=%d' % len(o['start']))
+    elif kind == 'log':
+        names = {p_ for p_, k in o['tree'] if b'/' not in p_}
+        for s_, nh in c['attempts']:
+            nm = bytes.fromhex(nh)
+            if re.fullmatch(rb'-[neE]+', nm):
+                continue
+            stem = ('%03d-' % s_).encode() + nm.replace(b'/', b'-') + b'.log'
+            k = sum(1 for x in names if x.startswith(stem))
+            if k in LOGS_B:
+                out.append('existing logs of the step=%d' % k)
+            if len(stem) >= 248:
+                out.append('log name of %d bytes' % len(stem))
+            if s_ in STEPS_B or s_ in (999, 1000):
+                out.append('step number=%d' % s_)
+            if nm.decode('latin1') in NAMES_B:
+                out.append('step name with blank / separator at an end')
+    elif kind == 'lock':
+        if c['lock'] in LOCKS_B:
+            out.append('lock-shape=' + c['lock'])
+        if o['lock'] is not None and len(o['lock']) > iv_common.PATH_MAX:
+            out.append('lock file > 4096 bytes')
+        if len(o['bd']) - len(c['id']) - 1 in ROOT_LENS:
+            out.append('root-len=%d' % (len(o['bd']) - len(c['id']) - 1))
+        if not c['id'].endswith(('.1', '.2', '.10')):
+            out.append('lock for id ' + c['id'].split('.', 1)[1])
+    return sorted(set(out))
 
 
 def evaluate(ctx, cases, res, impl=None):
@@ -579,6 +771,8 @@ def evaluate(ctx, cases, res, impl=None):
         c, o = cases[i], obs[i]
         res.evaluations += 1
         res.count('kind=' + kind + ('/' + c['stream'] if 'stream' in c else ''))
+        for cl in classes_of(c, o):
+            res.count('class: ' + cl)
         key = hashlib.sha1(json.dumps(c, sort_keys=True).encode()).hexdigest()
         if kind == 'bid':
             m, ok, fx = ans[q], ans[q + 1], ans[q + 2]
@@ -821,8 +1015,12 @@ def run(ctx, n=None):
                      gen_newinv(rng) if r < 0.80 else gen_lock(rng) if r < 0.84 else gen_logenv(rng))
     cases += [gen_hist(rng) for _ in range(nh)]
     res.samples = cases[:3]
-    res.assumptions = ['directory states of up to ~60 entries, up to 14 invocations per day, up to 12 attempts, histories of up '
-                       'to 13 operations in the correspondence (the theorems have no bound)']
+    res.assumptions = ['directory states of up to ~60 entries, up to 14 invocations per day in the ordinary streams; boundary stream '
+                       '(counted as `class: ...`): 15-17/31-33/63-65/99-101/255/256/999/1000 invocations of the day, suffixes in use '
+                       'next to 2^31, 2^32 and 2^63 - 2 (bash cannot print the successor of 2^63 - 1), 1-1000 existing logs of a step, '
+                       'log names of 248-255 bytes (NAME_MAX), step numbers up to 100000 (the model takes unary numbers), roots of '
+                       '254-256/1023-1025/4040 bytes; up to 12 attempts, histories of up to 13 operations (a real canvas run costs '
+                       '0.5 s: days with 100 runs only on generated roots) in the correspondence (the theorems have no bound)']
     impl = ctx.build_impl()
     chunk = 3000
     for i in range(0, len(cases), chunk):
